@@ -187,20 +187,24 @@ struct LibRun {
     errors: usize,
     warnings: usize,
     ms: u64,
+    cpu_ms: u64,
 }
 
 fn lib_run(texts: &[String]) -> LibRun {
     let refs: Vec<&str> = texts.iter().map(|s| s.as_str()).collect();
     let t0 = Instant::now();
+    let cpu0 = crate::util::thread_cpu_ms();
     let state = slicec::compile_from_strings(&refs, None);
     let accepted = !state.diagnostics.has_errors();
     let diags = state.into_diagnostics(&Default::default());
     let ms = t0.elapsed().as_millis() as u64;
+    let cpu_ms = crate::util::thread_cpu_ms().saturating_sub(cpu0);
     LibRun {
         accepted,
         errors: diags.iter().filter(|d| d.level() == DiagnosticLevel::Error).count(),
         warnings: diags.iter().filter(|d| d.level() == DiagnosticLevel::Warning).count(),
         ms,
+        cpu_ms,
     }
 }
 
@@ -224,7 +228,7 @@ fn bin_run(dir: &std::path::Path, texts: &[String], extra: &[String], json_forma
     let _ = std::fs::remove_dir_all(dir);
     json!({"exit": res.status.and_then(|s| s.code()).unwrap_or(-1), "signal": res.status.and_then(|s| s.signal()).unwrap_or(0), "timed_out": res.timed_out,
            "panicked": stderr.contains("panicked at") || stderr.contains("overflowed its stack"), "errors": errors, "warnings": warnings,
-           "elapsed_ms": res.elapsed_ms, "argv": argv, "stderr_head": stderr.chars().take(300).collect::<String>()})
+           "elapsed_ms": res.elapsed_ms, "cpu_ms": res.cpu_ms, "argv": argv, "stderr_head": stderr.chars().take(300).collect::<String>()})
 }
 
 fn mutate(rng: &mut Rng, text: &str) -> String {
@@ -330,7 +334,7 @@ impl Family for Totality {
         emit_event(
             "totality",
             &json!({"ev": "run", "mode": "lib", "fam": family_name, "bytes": bytes, "accepted": r.accepted, "errors": r.errors, "warnings": r.warnings,
-                    "elapsed_ms": r.ms, "expect": expect, "detail": match fam { "scale" => json!({"f": case["f"], "n": case["n"]}), "typepos" => json!({"form": case["form"], "opt": case["opt"], "pos": case["pos"]}), _ => json!({}) }}),
+                    "elapsed_ms": r.ms, "cpu_ms": r.cpu_ms, "expect": expect, "detail": match fam { "scale" => json!({"f": case["f"], "n": case["n"]}), "typepos" => json!({"form": case["form"], "opt": case["opt"], "pos": case["pos"]}), _ => json!({}) }}),
         );
         // the binary on real files: always for the small families, sampled for the soups
         let with_bin = matches!(fam, "typepos" | "scale") || (fam == "soup" && (key >> 8) % 16 == 0) || (family_name == "generated" && (key >> 8) % 8 == 0);
@@ -364,7 +368,7 @@ impl Family for Totality {
                 emit_event(
                     "totality",
                     &json!({"ev": "run", "mode": "lib", "fam": "mutant", "bytes": b, "accepted": r.accepted, "errors": r.errors, "warnings": r.warnings,
-                            "elapsed_ms": r.ms, "expect": "unknown", "detail": {}}),
+                            "elapsed_ms": r.ms, "cpu_ms": r.cpu_ms, "expect": "unknown", "detail": {}}),
                 );
             }
             let _ = std::fs::remove_dir_all(&dir);
